@@ -373,7 +373,10 @@ impl Cache {
     pub fn list_with_size(&self, tpe: FileType) -> RusticResult<HashMap<Id, u32>> {
         let path = self.path.join(tpe.dirname());
 
+        // follow symlinks: reads (`fs::read`, `File::open`) follow them, so a symlink to a file is a cache entry as well and
+        // must be listed (and cleaned up) like a regular file; the same holds for entries below a symlinked directory
         let walker = WalkDir::new(path)
+            .follow_links(true)
             .into_iter()
             .inspect(|r| {
                 if let Err(err) = r {
